@@ -84,6 +84,14 @@ Theorem C09_removed_on_close n cid r c :
   get_conn n cid = Some c ->
   forall l, ~ List.In (c_host c, l) (n_peer_waiting (remove_conn n cid r)).
 Proof. exact (@NodeC.C09_removed_on_close n cid r c). Qed.
+
+(* ... and when the application's handler raises, the request is delivered and answered 5012 on the
+   same connection, and no pair is left behind *)
+Theorem C09_raise_leaves_no_entry n cid m n' outs :
+  recv_app_request n cid m = (n', outs) -> handler_raises m = true ->
+  (forall h k, pw_has (n_peer_waiting n') h k -> pw_has (n_peer_waiting n) h k) /\
+  (forall i, List.In (ODeliver i m) outs -> outs = [ODeliver i m; OQueue cid (answer_of m (Some RC_UNABLE) [])]).
+Proof. exact (@NodeC.C09_raise_leaves_no_entry n cid m n' outs). Qed.
 End FromNodeC.
 
 Print Assumptions FromNodeC.C09_answer_shape.
@@ -94,3 +102,4 @@ Print Assumptions FromNodeC.C09_gone_is_error.
 Print Assumptions FromNodeC.C09_second_fails.
 Print Assumptions FromNodeC.C09_second_is_error.
 Print Assumptions FromNodeC.C09_removed_on_close.
+Print Assumptions FromNodeC.C09_raise_leaves_no_entry.
